@@ -53,11 +53,15 @@ def same_row(a, b, tol):
 
 
 def run_case(rs, ctx):
-    spec = simgen.gen_simulation(rs)
+    big = ctx.tier == "thorough" and ctx.index == 0
+    spec = simgen.gen_big_simulation(rs, is_quick=True) if big else simgen.gen_simulation(rs)
+    if big:
+        ctx.count("multi_chunk_simulations")
     p = spec["params"]
     bandits = [("b%d" % i, gen.build(c)) for i, c in enumerate(spec["cfgs"])]
     twins = {name: copy.deepcopy(m) for name, m in bandits}
-    wit = {"simulation": {k: spec[k] for k in ("cfgs", "d", "r", "X", "params")}}
+    wit = {"simulation": {k: spec[k] for k in ("cfgs", "d", "r", "X", "params")}} if not big else \
+        {"simulation": {"cfgs": spec["cfgs"], "params": p, "data": "gen_big_simulation (102000 rows, regenerated from the case index)"}}
     try:
         sim = simgen.run_simulator(spec, list(bandits))
     except Exception as ex:  # noqa: BLE001
